@@ -1,0 +1,434 @@
+//go:build verif
+
+// Contracts for the deductive verifier in /verif (gowp).  This file contains no
+// executable code: only "//@" specification comments, read by the verification
+// condition generator.  It is compiled only under the build tag "verif".
+package parser
+
+// ---------------------------------------------------------------------------
+// lexer state invariant (C04): offsets stay inside the source, for every byte string
+// ---------------------------------------------------------------------------
+
+//@ spec wfParser(p *parser) bool = p != nil && p.length == len(p.str) && 0 <= p.chrOffset && p.chrOffset <= p.offset && p.offset <= p.length && p.length <= 281474976710655 &&
+//@+  (p.chr == -1 ==> p.chrOffset == p.length) && p.chr >= -1 && (p.chrOffset < p.offset || p.chr == 32 || p.chr == -1) && p.file != nil && p.comments != nil && 0 <= p.base && p.base <= 1099511627776
+// what the scanning functions leave unchanged
+//@ spec sameSource(p *parser) bool = p.str == old(p.str) && p.length == old(p.length) && p.base == old(p.base)
+// Termination measure of every scanning loop: the pair (p.offset increasing towards
+// p.length, then "not yet at EOF").  lexLE: the measure did not increase since entry;
+// lexLT: it strictly decreased.  Stated with comparisons only (no subtraction).
+//@ spec lexLE(p *parser) bool = p.offset > old(p.offset) || (p.offset == old(p.offset) && (p.chr == old(p.chr) || p.chr == -1))
+//@ spec lexLT(p *parser) bool = p.offset > old(p.offset) || (p.offset == old(p.offset) && old(p.chr) != -1 && p.chr == -1)
+
+//@ func (*parser).idxOf
+//@   inline
+
+// positions handed to error() must lie inside the input
+//@ spec validPlace(p *parser, place interface{}) bool = (is(place, int) && 0 <= place.(int) && place.(int) <= p.length) ||
+//@+  (is(place, file.Idx) && (place.(file.Idx) == 0 || (p.base <= int(place.(file.Idx)) && int(place.(file.Idx)) <= p.base + p.length)))
+
+// what error() itself needs of the parser (read() calls it between two field updates)
+//@ spec errCtx(p *parser) bool = p != nil && p.file != nil && p.length == len(p.str) && p.length <= 281474976710655 && 0 <= p.chrOffset && p.chrOffset <= p.length && 0 <= p.base && p.base <= 1099511627776
+
+//@ func (*parser).error
+//@   props C04 C19
+//@   safety C04
+//@   requires errCtx(p) && validPlace(p, place)
+//@   ensures sameSource(p) && p.chr == old(p.chr) && p.offset == old(p.offset) && p.chrOffset == old(p.chrOffset) && p.file == old(p.file) && p.comments == old(p.comments)
+//@   modifies parser.errors, elems(*Error), cell(ErrorList)
+//@   nothrow
+
+//@ func (*parser).errorUnexpected
+//@   props C04
+//@   safety C04
+//@   requires errCtx(p) && (idx == 0 || (p.base <= int(idx) && int(idx) <= p.base + p.length))
+//@   ensures sameSource(p) && p.chr == old(p.chr) && p.offset == old(p.offset) && p.chrOffset == old(p.chrOffset) && p.file == old(p.file) && p.comments == old(p.comments)
+//@   modifies parser.errors, elems(*Error), cell(ErrorList)
+//@   nothrow
+
+//@ func (*parser).position
+//@   props C04 C19
+//@   safety C04
+//@   requires p != nil && p.file != nil && 0 <= int(idx) - p.base && int(idx) - p.base <= len(p.str)
+//@   pure
+//@   nothrow
+
+//@ func lineCount
+//@   trusted
+//@   pure
+//@   nothrow
+
+//@ func (*parser).read
+//@   props C04
+//@   safety C04
+//@   requires wfParser(p)
+//@   ensures wfParser(p)
+//@   ensures sameSource(p)
+//@   ensures p.offset >= old(p.offset) && p.chrOffset >= old(p.chrOffset)
+//@   ensures lexLE(p)
+//@   ensures old(p.offset) < p.length ==> p.chrOffset == old(p.offset) && p.offset > old(p.offset) && p.chr >= 0
+//@   ensures old(p.offset) >= p.length ==> p.chr == -1 && p.offset == old(p.offset)
+//@   ensures lexLT(p) || old(p.chr) == -1
+//@   modifies parser.chr, parser.chrOffset, parser.offset, parser.errors, elems(*Error), cell(ErrorList)
+//@   nothrow
+
+//@ func (*parser).peek
+//@   props C04
+//@   safety C04
+//@   requires wfParser(p)
+//@   pure
+//@   nothrow
+
+//@ func digitValue
+//@   props C04 C06
+//@   ensures 48 <= chr && chr <= 57 ==> result == int(chr) - 48
+//@   ensures 97 <= chr && chr <= 102 ==> result == int(chr) - 87
+//@   ensures 65 <= chr && chr <= 70 ==> result == int(chr) - 55
+//@   ensures !((48 <= chr && chr <= 57) || (97 <= chr && chr <= 102) || (65 <= chr && chr <= 70)) ==> result == 16
+//@   pure
+//@   nothrow
+//@ func isDecimalDigit
+//@   inline
+//@ func isDigit
+//@   inline
+//@ func hex2decimal
+//@   props C04 C06
+//@   ensures result1 <==> ((48 <= chr && chr <= 57) || (97 <= chr && chr <= 102) || (65 <= chr && chr <= 70))
+//@   ensures 48 <= chr && chr <= 57 ==> result0 == rune(chr) - 48
+//@   ensures 97 <= chr && chr <= 102 ==> result0 == rune(chr) - 87
+//@   ensures 65 <= chr && chr <= 70 ==> result0 == rune(chr) - 55
+//@   pure
+//@   nothrow
+
+//@ func (*parser).scanMantissa
+//@   props C04
+//@   safety C04
+//@   requires wfParser(p) && 2 <= base && base <= 16
+//@   ensures old(p.chr) >= 48 && old(p.chr) <= 57 && int(old(p.chr)) - 48 < base ==> lexLT(p)
+//@   invariant@1 wfParser(p) && sameSource(p) && p.offset >= old(p.offset) && p.chrOffset >= old(p.chrOffset) && lexLE(p)
+//@   decreases@1 up p.offset to p.length ; bool2int(p.chr >= 0)
+//@   ensures wfParser(p)
+//@   ensures sameSource(p)
+//@   ensures p.offset >= old(p.offset) && p.chrOffset >= old(p.chrOffset)
+//@   ensures lexLE(p)
+//@   modifies parser.chr, parser.chrOffset, parser.offset, parser.errors, elems(*Error), cell(ErrorList)
+//@   nothrow
+
+//@ func (*parser).scanNewline
+//@   props C04
+//@   safety C04
+//@   requires wfParser(p)
+//@   ensures wfParser(p)
+//@   ensures sameSource(p)
+//@   ensures p.offset >= old(p.offset) && p.chrOffset >= old(p.chrOffset)
+//@   ensures lexLE(p)
+//@   ensures lexLT(p) || old(p.chr) == -1
+//@   modifies parser.chr, parser.chrOffset, parser.offset, parser.errors, elems(*Error), cell(ErrorList)
+//@   nothrow
+
+//@ func (*parser).scanEscape
+//@   props C04
+//@   safety C04
+//@   requires wfParser(p)
+//@   invariant@1 wfParser(p) && sameSource(p) && p.offset >= old(p.offset) && p.chrOffset >= old(p.chrOffset) && lexLT(p)
+//@   decreases@1 int(length)
+//@   ensures wfParser(p)
+//@   ensures sameSource(p)
+//@   ensures p.offset >= old(p.offset) && p.chrOffset >= old(p.chrOffset)
+//@   ensures lexLE(p)
+//@   ensures lexLT(p) || old(p.chr) == -1
+//@   modifies parser.chr, parser.chrOffset, parser.offset, parser.errors, elems(*Error), cell(ErrorList)
+//@   nothrow
+
+//@ func (*parser).skipSingleLineComment
+//@   props C04
+//@   safety C04
+//@   requires wfParser(p)
+//@   invariant@1 wfParser(p) && sameSource(p) && p.offset >= old(p.offset) && p.chrOffset >= old(p.chrOffset) && lexLE(p)
+//@   decreases@1 up p.offset to p.length ; bool2int(p.chr >= 0)
+//@   ensures wfParser(p)
+//@   ensures sameSource(p)
+//@   ensures p.offset >= old(p.offset) && p.chrOffset >= old(p.chrOffset)
+//@   ensures lexLE(p)
+//@   modifies parser.chr, parser.chrOffset, parser.offset, parser.errors, elems(*Error), cell(ErrorList)
+//@   nothrow
+
+//@ func (*parser).skipMultiLineComment
+//@   props C04
+//@   safety C04
+//@   requires wfParser(p)
+//@   invariant@1 wfParser(p) && sameSource(p) && p.offset >= old(p.offset) && p.chrOffset >= old(p.chrOffset) && lexLE(p)
+//@   decreases@1 up p.offset to p.length ; bool2int(p.chr >= 0)
+//@   ensures wfParser(p)
+//@   ensures sameSource(p)
+//@   ensures p.offset >= old(p.offset) && p.chrOffset >= old(p.chrOffset)
+//@   ensures lexLE(p)
+//@   modifies parser.chr, parser.chrOffset, parser.offset, parser.errors, elems(*Error), cell(ErrorList)
+//@   nothrow
+
+//@ func (*parser).scanString
+//@   props C04
+//@   safety C04
+//@   requires wfParser(p) && 0 <= offset && offset < p.chrOffset
+//@   invariant@1 wfParser(p) && sameSource(p) && p.offset >= old(p.offset) && p.chrOffset >= old(p.chrOffset) && lexLE(p)
+//@   decreases@1 up p.offset to p.length ; bool2int(p.chr >= 0)
+//@   ensures wfParser(p)
+//@   ensures sameSource(p)
+//@   ensures p.offset >= old(p.offset) && p.chrOffset >= old(p.chrOffset)
+//@   ensures lexLE(p)
+//@   modifies parser.chr, parser.chrOffset, parser.offset, parser.errors, elems(*Error), cell(ErrorList)
+//@   nothrow
+
+//@ func (*parser).scanNumericLiteral
+//@   props C04
+//@   safety C04
+//@   requires wfParser(p) && (decimalPoint ==> p.chrOffset >= 1)
+//@   ensures !decimalPoint && old(p.chr) >= 48 && old(p.chr) <= 57 ==> lexLT(p)
+//@   ensures wfParser(p)
+//@   ensures sameSource(p)
+//@   ensures p.offset >= old(p.offset) && p.chrOffset >= old(p.chrOffset)
+//@   ensures lexLE(p)
+//@   modifies parser.chr, parser.chrOffset, parser.offset, parser.errors, elems(*Error), cell(ErrorList)
+//@   nothrow
+
+//@ func isLineTerminator
+//@   inline
+// The Unicode classes are abstract functions of the code point.  ASSUMED (from the
+// Unicode tables, UAX #31): ID_Start is contained in ID_Continue.
+//@ func unicodeIDStart
+//@   trusted
+//@   logical
+//@   nothrow
+//@ func unicodeIDContinue
+//@   trusted
+//@   logical
+//@   nothrow
+//@   ensures unicodeIDStart(r) ==> result
+//@ func isIdentifierStart
+//@   inline
+//@ func isIdentifierPart
+//@   inline
+//@ spec idStart(c rune) bool = c == 36 || c == 95 || c == 92 || (97 <= c && c <= 122) || (65 <= c && c <= 90) || (c >= 128 && unicodeIDStart(c))
+//@ func (*ErrorList).Add
+//@   nothrow
+//@   nosafety
+
+//@ func (*parser).slice
+//@   props C04
+//@   safety C04
+//@   requires p != nil && idx0 <= idx1 && 0 <= p.base && p.base <= 1099511627776 && -1099511627776 <= int(idx0) && int(idx1) <= 2199023255552
+//@   pure
+//@   nothrow
+
+//@ func (*parser).switch2
+//@   props C04
+//@   safety C04
+//@   requires wfParser(p)
+//@   ensures wfParser(p)
+//@   ensures sameSource(p)
+//@   ensures p.offset >= old(p.offset) && p.chrOffset >= old(p.chrOffset)
+//@   ensures lexLE(p)
+//@   modifies parser.chr, parser.chrOffset, parser.offset, parser.errors, elems(*Error), cell(ErrorList)
+//@   nothrow
+//@ func (*parser).switch3
+//@   props C04
+//@   safety C04
+//@   requires wfParser(p)
+//@   ensures wfParser(p)
+//@   ensures sameSource(p)
+//@   ensures p.offset >= old(p.offset) && p.chrOffset >= old(p.chrOffset)
+//@   ensures lexLE(p)
+//@   modifies parser.chr, parser.chrOffset, parser.offset, parser.errors, elems(*Error), cell(ErrorList)
+//@   nothrow
+//@ func (*parser).switch4
+//@   props C04
+//@   safety C04
+//@   requires wfParser(p)
+//@   ensures wfParser(p)
+//@   ensures sameSource(p)
+//@   ensures p.offset >= old(p.offset) && p.chrOffset >= old(p.chrOffset)
+//@   ensures lexLE(p)
+//@   modifies parser.chr, parser.chrOffset, parser.offset, parser.errors, elems(*Error), cell(ErrorList)
+//@   nothrow
+//@ func (*parser).switch6
+//@   props C04
+//@   safety C04
+//@   requires wfParser(p)
+//@   ensures wfParser(p)
+//@   ensures sameSource(p)
+//@   ensures p.offset >= old(p.offset) && p.chrOffset >= old(p.chrOffset)
+//@   ensures lexLE(p)
+//@   modifies parser.chr, parser.chrOffset, parser.offset, parser.errors, elems(*Error), cell(ErrorList)
+//@   nothrow
+
+//@ func (*parser).skipWhiteSpace
+//@   props C04
+//@   safety C04
+//@   requires wfParser(p)
+//@   invariant@1 wfParser(p) && sameSource(p) && p.offset >= old(p.offset) && p.chrOffset >= old(p.chrOffset) && lexLE(p)
+//@   decreases@1 up p.offset to p.length ; bool2int(p.chr >= 0)
+//@   ensures wfParser(p)
+//@   ensures sameSource(p)
+//@   ensures p.offset >= old(p.offset) && p.chrOffset >= old(p.chrOffset)
+//@   ensures lexLE(p)
+//@   nothrow
+
+//@ func (*parser).readSingleLineComment
+//@   props C04
+//@   safety C04
+//@   requires wfParser(p) && p.chr != -1
+//@   invariant@1 wfParser(p) && sameSource(p) && p.offset >= old(p.offset) && p.chrOffset >= old(p.chrOffset) && lexLE(p) && (len(result) >= 1 || p.chr != -1)
+//@   decreases@1 up p.offset to p.length ; bool2int(p.chr >= 0)
+//@   ensures wfParser(p)
+//@   ensures sameSource(p)
+//@   ensures p.offset >= old(p.offset) && p.chrOffset >= old(p.chrOffset)
+//@   ensures lexLE(p)
+//@   nothrow
+
+//@ func (*parser).readMultiLineComment
+//@   props C04
+//@   safety C04
+//@   requires wfParser(p)
+//@   invariant@1 wfParser(p) && sameSource(p) && p.offset >= old(p.offset) && p.chrOffset >= old(p.chrOffset) && lexLE(p)
+//@   decreases@1 up p.offset to p.length ; bool2int(p.chr >= 0)
+//@   ensures wfParser(p)
+//@   ensures sameSource(p)
+//@   ensures p.offset >= old(p.offset) && p.chrOffset >= old(p.chrOffset)
+//@   ensures lexLE(p)
+//@   nothrow
+
+//@ func parseStringLiteral
+//@   trusted
+//@   pure
+//@   nothrow
+
+//@ func (*parser).scanIdentifier
+//@   props C04
+//@   safety C04
+//@   requires wfParser(p) && idStart(p.chr)
+//@   invariant@1 wfParser(p) && sameSource(p) && p.offset >= old(p.offset) && p.chrOffset >= old(p.chrOffset) && lexLE(p)
+//@   decreases@1 up p.offset to p.length ; bool2int(p.chr >= 0)
+//@   invariant@2 wfParser(p) && sameSource(p) && p.offset >= old(p.offset) && p.chrOffset >= old(p.chrOffset) && lexLE(p) &&
+//@+    (p.offset > athead(1, p.offset) || (p.offset == athead(1, p.offset) && p.chr == -1))
+//@   ensures wfParser(p)
+//@   ensures sameSource(p)
+//@   ensures p.offset >= old(p.offset) && p.chrOffset >= old(p.chrOffset)
+//@   ensures lexLT(p)
+//@   nothrow
+
+// One token: the returned position lies inside the input, the state stays well-formed,
+// and the scanner makes progress unless it reports EOF (this is what makes the
+// parser's resynchronisation loops terminate).
+//@ func (*parser).scan
+//@   props C04
+//@   safety C04
+//@   requires wfParser(p) && p.comments != nil
+//@   invariant@1 wfParser(p) && sameSource(p) && p.offset >= old(p.offset) && p.chrOffset >= old(p.chrOffset) && lexLE(p) && p.comments != nil
+//@   decreases@1 up p.offset to p.length ; bool2int(p.chr >= 0)
+//@   ensures wfParser(p)
+//@   ensures sameSource(p)
+//@   ensures p.base <= int(idx) && int(idx) <= p.base + p.length
+//@   ensures tkn == token.EOF || lexLT(p)
+//@   nothrow
+
+// ---------------------------------------------------------------------------
+// regexp.go: the RegExp pattern scanner (C04, C10)
+// ---------------------------------------------------------------------------
+
+//@ spec wfRE(p *regExpParser) bool = p != nil && p.length == len(p.str) && p.length <= 281474976710655 && 0 <= p.chrOffset && p.chrOffset <= p.offset && p.offset <= p.length &&
+//@+  (p.chr == -1 ==> p.chrOffset == p.length) && p.chr >= -1 && (p.chr >= 0 ==> p.chrOffset < p.offset) && (p.chr >= 0 && p.chr < 128 ==> p.offset == p.chrOffset + 1) && p.goRegexp != nil
+//@ spec sameRE(p *regExpParser) bool = p.str == old(p.str) && p.length == old(p.length) && p.goRegexp == old(p.goRegexp)
+//@ spec reLE(p *regExpParser) bool = p.offset > old(p.offset) || (p.offset == old(p.offset) && (p.chr == old(p.chr) || p.chr == -1))
+//@ spec reLT(p *regExpParser) bool = p.offset > old(p.offset) || (p.offset == old(p.offset) && old(p.chr) != -1 && p.chr == -1)
+
+//@ func (*regExpParser).error
+//@   props C04 C10
+//@   safety C04 C10
+//@   requires p != nil
+//@   ensures sameRE(p) && p.chr == old(p.chr) && p.offset == old(p.offset) && p.chrOffset == old(p.chrOffset)
+//@   modifies regExpParser.errors, elems(error)
+//@   nothrow
+
+// read is entered with chr possibly stale (first call): only the offsets matter
+//@ spec wfREoff(p *regExpParser) bool = p != nil && p.length == len(p.str) && p.length <= 281474976710655 && 0 <= p.offset && p.offset <= p.length && p.goRegexp != nil
+//@ func (*regExpParser).read
+//@   props C04 C10
+//@   safety C04 C10
+//@   requires wfREoff(p)
+//@   ensures wfRE(p)
+//@   ensures sameRE(p)
+//@   ensures p.offset >= old(p.offset)
+//@   ensures old(p.offset) < p.length ==> p.chrOffset == old(p.offset) && p.offset > old(p.offset) && p.chr >= 0
+//@   ensures old(p.offset) >= p.length ==> p.chr == -1 && p.offset == old(p.offset)
+//@   modifies regExpParser.chr, regExpParser.chrOffset, regExpParser.offset, regExpParser.errors, elems(error)
+//@   nothrow
+
+//@ func (*regExpParser).pass
+//@   props C04 C10
+//@   safety C04 C10
+//@   requires wfRE(p)
+//@   ensures wfRE(p)
+//@   ensures sameRE(p)
+//@   ensures p.offset >= old(p.offset) && p.chrOffset >= old(p.chrOffset)
+//@   ensures reLE(p)
+//@   ensures old(p.chr) != -1 ==> reLT(p)
+//@   modifies regExpParser.chr, regExpParser.chrOffset, regExpParser.offset, regExpParser.errors, elems(error)
+//@   nothrow
+
+//@ func (*regExpParser).scanEscape
+//@   props C04 C10
+//@   safety C04 C10
+//@   requires wfRE(p)
+//@   invariant@1 wfRE(p) && sameRE(p) && p.offset >= old(p.offset) && p.chrOffset >= old(p.chrOffset) && reLE(p)
+//@   decreases@1 up p.offset to p.length ; bool2int(p.chr >= 0)
+//@   invariant@2 wfRE(p) && sameRE(p) && p.offset >= old(p.offset) && p.chrOffset >= old(p.chrOffset) && reLE(p)
+//@   decreases@2 up p.offset to p.length ; bool2int(p.chr >= 0)
+//@   invariant@3 wfRE(p) && sameRE(p) && p.offset >= old(p.offset) && p.chrOffset >= old(p.chrOffset) && reLE(p) && length <= length#1 && length#1 <= 4 &&
+//@+    p.chrOffset + int(length) == valueOffset + int(length#1) && offset <= valueOffset
+//@   decreases@3 int(length)
+//@   ensures wfRE(p)
+//@   ensures sameRE(p)
+//@   ensures p.offset >= old(p.offset) && p.chrOffset >= old(p.chrOffset)
+//@   ensures reLE(p)
+//@   ensures old(p.chr) != -1 ==> reLT(p)
+//@   modifies regExpParser.chr, regExpParser.chrOffset, regExpParser.offset, regExpParser.errors, elems(error), elems(byte)
+//@   nothrow
+
+//@ func (*regExpParser).scanBracket
+//@   props C04 C10
+//@   safety C04 C10
+//@   requires wfRE(p)
+//@   invariant@1 wfRE(p) && sameRE(p) && p.offset >= old(p.offset) && p.chrOffset >= old(p.chrOffset) && reLE(p)
+//@   decreases@1 up p.offset to p.length ; bool2int(p.chr >= 0)
+//@   ensures wfRE(p)
+//@   ensures sameRE(p)
+//@   ensures p.offset >= old(p.offset) && p.chrOffset >= old(p.chrOffset)
+//@   ensures reLE(p)
+//@   modifies regExpParser.chr, regExpParser.chrOffset, regExpParser.offset, regExpParser.errors, regExpParser.invalid, elems(error), elems(byte)
+//@   nothrow
+
+//@ func (*regExpParser).scanGroup
+//@   props C04 C10
+//@   safety C04 C10
+//@   requires wfRE(p)
+//@   invariant@1 wfRE(p) && sameRE(p) && p.offset >= old(p.offset) && p.chrOffset >= old(p.chrOffset) && reLE(p)
+//@   decreases@1 up p.offset to p.length ; bool2int(p.chr >= 0)
+//@   ensures wfRE(p)
+//@   ensures sameRE(p)
+//@   ensures p.offset >= old(p.offset) && p.chrOffset >= old(p.chrOffset)
+//@   ensures reLE(p)
+//@   modifies regExpParser.chr, regExpParser.chrOffset, regExpParser.offset, regExpParser.errors, regExpParser.invalid, elems(error), elems(byte)
+//@   nothrow
+
+//@ func (*regExpParser).scan
+//@   props C04 C10
+//@   safety C04 C10
+//@   requires wfRE(p)
+//@   invariant@1 wfRE(p) && sameRE(p) && p.offset >= old(p.offset) && reLE(p)
+//@   decreases@1 up p.offset to p.length ; bool2int(p.chr >= 0)
+//@   ensures wfRE(p)
+//@   nothrow
+
+//@ func TransformRegExp
+//@   props C04 C10
+//@   safety C04 C10
+//@   nothrow
